@@ -556,6 +556,16 @@ func checkGuardedRecursion(c *Ctx, r *Rec, info *types.Info, n *types.Named, ms 
 						mentionsM = true
 					}
 				}
+				// a local copy of the field taken in this function (var depth = v.depth_)
+				if id, ok := y.(*ast.Ident); ok {
+					if init := initOf(info, fd, id); init != nil {
+						if f := selectorField(info, init); f != nil && f == depthF {
+							mentionsD = true
+						} else if f != nil && f == maxF {
+							mentionsM = true
+						}
+					}
+				}
 				return true
 			})
 			panics := false
